@@ -1170,6 +1170,33 @@ def replay(chk: Check, path: str) -> int:
         if not re.search(r'<<\s*"twap_bad",\s*\{\s*\},\s*1\s*>>', res.output):
             chk.violation(f"SqueethMarket.get_twap_price|twap_relational|window_{len(win)}", f"TWAP {float(g)!r} for window {win}", r)
         return chk.finish("replay of one TWAP observation")
+    if r.get("kind") == "twap_resampled":
+        import contextlib
+        import io
+        from demeter import Strategy
+        F, bars = r["F"], list(r["bars"])
+        act, um, sm = build_actuator(list(r["path"]), 0)
+        act.interval = f"{F}min"
+        weth, osqth, _, _ = _tokens()
+        got = {}
+
+        class S(Strategy):
+            def on_bar(self_, snap):
+                if snap.row_id == len(bars) - 1:
+                    got["g"] = frac(sm.get_twap_price(weth if r["token"] == "eth" else osqth))
+        act.strategy = S()
+        with contextlib.redirect_stdout(io.StringIO()):
+            act.run(print_result=False)
+        td = chk.tmp / "trace"
+        td.mkdir()
+        for f in ("Trace_SqueethTwap.tla", "Trace_SqueethTwap.cfg"):
+            shutil.copy(VERIF / "spec" / "trace" / f, td / f)
+        (td / "TwapObs.tla").write_text(twap_obs_module([((r["token"], ("F", F, tuple(bars))), (got["g"], ()))]))
+        res = tlc.run(td / "Trace_SqueethTwap.tla", td / "Trace_SqueethTwap.cfg", chk.tmp, workers=1, timeout=600)
+        if not re.search(r'<<\s*"twap_bad",\s*\{\s*\},\s*1\s*>>', res.output):
+            chk.violation(f"SqueethMarket.get_twap_price|twap_relational|resampled_{F}min", f"TWAP {float(got['g'])!r} on bars {F} minutes apart {bars}", r)
+        chk.traces += 1
+        return chk.finish("replay of one TWAP observation on resampled data")
     states = unjson(r["states"])
     ctx, col = Ctx(lp_table(), r["nk"]), Col()
     _chdir_scratch(str(chk.tmp / "cwd"))
